@@ -4,7 +4,11 @@ mod batch;
 mod choice;
 mod cgen;
 mod hist;
+mod hybgen;
+mod hyboracle;
 mod hybscn;
+mod parser;
+mod simdev;
 mod lin;
 mod memgen;
 mod memoracle;
